@@ -60,7 +60,7 @@ PROPS['C09'] = dict(
 )
 PROPS['C18'] = dict(
     title='strip_comments',
-    units=['depth', 'wrap', 'arms'],
+    units=['depth', 'wrap', 'arms', 'rtmu'],
     shims=['A-glue'],
     design='DESIGN.md 3/C18',
     technique='contract-based deductive verification (Verus): flag forwarding on the recursion skeleton and at the entry wrappers; arm-guard obligations on the lifted match arms',
@@ -147,7 +147,7 @@ PROPS['C01'] = dict(
 )
 PROPS['C07'] = dict(
     title='history independence',
-    units=[],
+    units=['kwstack'],
     engines=[dict(module='gvc.engine', args=dict(analyses=('frame',)))],
     shims=['A-packrat'],
     design='DESIGN.md 3/C07',
@@ -158,7 +158,7 @@ PROPS['C07'] = dict(
 )
 PROPS['C13'] = dict(
     title='reserved words',
-    units=[],
+    units=['kwstack'],
     engines=[dict(module='gvc.engine', args=dict(analyses=('ident', 'faithful'))), REPLAY],
     shims=['A-nom', 'A-packrat'],
     design='DESIGN.md 3/C13',
@@ -170,7 +170,7 @@ PROPS['C13'] = dict(
 PROPS['C15'] = dict(
     title='incomplete mode',
     units=['wrap'],
-    engines=[dict(module='gvc.engine', args=dict(analyses=('nullable',)))],
+    engines=[dict(module='gvc.engine', args=dict(analyses=('nullable', 'entries')))],
     shims=['A-nom', 'A-packrat'],
     design='DESIGN.md 3/C15',
     technique='generated nullable/manyok fixpoint over all productions, shape rules on the four top-level productions, absence of Failure producers; Verus contract on parse_sv_pp / parse_lib_pp (mode switch, Error::Parse only from a parser Err)',
